@@ -219,7 +219,7 @@ void LatticePresets::addSzSz ( Lattice *L, const std::string& Label1, const std:
     if (L->Sites.find(Label2)==L->Sites.end()) { ERROR("No site" << Label2 << "found."); throw (Lattice::exWrongLabel()); };
     unsigned short Orbitals = L->Sites[Label1]->OrbitalSize;
     unsigned short Spins = L->Sites[Label1]->SpinSize;
-    if ( Orbitals != L->Sites[Label2]->OrbitalSize || Spins != L->Sites[Label1]->SpinSize ) { ERROR("Adjacent sites spin and orbital sizes do not match. Use Lattice::addTerm for specific interaction."); throw (Lattice::Term::Presets::exWrongIndices()); };
+    if ( Orbitals != L->Sites[Label2]->OrbitalSize || Spins != L->Sites[Label2]->SpinSize ) { ERROR("Adjacent sites spin and orbital sizes do not match. Use Lattice::addTerm for specific interaction."); throw (Lattice::Term::Presets::exWrongIndices()); };
     if (Spins!=2) { ERROR("addSzSz doesn't work not for 2 spins."); throw (Lattice::exWrongLabel()); };
     for (unsigned short i=0; i<Orbitals; ++i) {
             L->Terms->addTerm(Lattice::Term::Presets::NupNdown(Label1, Label2, -ExchJ/4., i, i, up, down));
@@ -241,7 +241,7 @@ void LatticePresets::addSS ( Lattice *L, const std::string& Label1, const std::s
     if (L->Sites.find(Label2)==L->Sites.end()) { ERROR("No site" << Label2 << "found."); throw (Lattice::exWrongLabel()); };
     unsigned short Orbitals = L->Sites[Label1]->OrbitalSize;
     unsigned short Spins = L->Sites[Label1]->SpinSize;
-    if ( Orbitals != L->Sites[Label2]->OrbitalSize || Spins != L->Sites[Label1]->SpinSize ) { ERROR("Adjacent sites spin and orbital sizes do not match. Use Lattice::addTerm for specific interaction."); throw (Lattice::Term::Presets::exWrongIndices()); };
+    if ( Orbitals != L->Sites[Label2]->OrbitalSize || Spins != L->Sites[Label2]->SpinSize ) { ERROR("Adjacent sites spin and orbital sizes do not match. Use Lattice::addTerm for specific interaction."); throw (Lattice::Term::Presets::exWrongIndices()); };
     if (Spins!=2) { ERROR("addSS doesn't work not for 2 spins."); throw (Lattice::exWrongLabel()); };
 
     addSzSz(L, Label1, Label2, ExchJ);
@@ -279,7 +279,7 @@ void LatticePresets::addHopping ( Lattice *L, const std::string& Label1, const s
         ERROR("Orbital or Spin index mismatch"); throw ( Lattice::Term::Presets::exWrongIndices() );
         };
     unsigned short Spins = L->Sites[Label1]->SpinSize;
-    if ( Spins != L->Sites[Label1]->SpinSize ) { ERROR("Adjacent sites spin sizes do not match. Use Lattice::addTerm for specific interaction."); throw (Lattice::Term::Presets::exWrongIndices()); };
+    if ( Spins != L->Sites[Label2]->SpinSize ) { ERROR("Adjacent sites spin sizes do not match. Use Lattice::addTerm for specific interaction."); throw (Lattice::Term::Presets::exWrongIndices()); };
     for (int z=0; z<Spins; ++z) addHopping(L, Label1, Label2, t, Orbital1, Orbital2, z, z);
 }
 
@@ -289,7 +289,7 @@ void LatticePresets::addHopping ( Lattice *L, const std::string& Label1, const s
     if (L->Sites.find(Label2)==L->Sites.end()) { ERROR("No site" << Label2 << "found."); throw (Lattice::exWrongLabel()); };
     unsigned short Orbitals = L->Sites[Label1]->OrbitalSize;
     unsigned short Spins = L->Sites[Label1]->SpinSize;
-    if ( Orbitals != L->Sites[Label2]->OrbitalSize || Spins != L->Sites[Label1]->SpinSize ) {
+    if ( Orbitals != L->Sites[Label2]->OrbitalSize || Spins != L->Sites[Label2]->SpinSize ) {
         ERROR("Adjacent sites spin and orbital sizes do not match. Use Lattice::addTerm for specific interaction."); throw (Lattice::Term::Presets::exWrongIndices());
         };
 
